@@ -61,6 +61,19 @@ package consensus
 //@   atstore RoundState.LockedRound requires [unlockOnlyOnLaterPolka] old < vote.Round && vote.Round <= cs.Round
 //@   atstore RoundState.LockedBlock requires [lockNeverSetHere] new == nil
 
+// Entering round r advances the proposer rotation by exactly the rounds skipped since cs.Round, on a
+// copy of the set held for cs.Round: the proposer of a round is then a function of the set at the start
+// of the height and the round number only, whichever way (1->2->3 or 1->3) the node got there.
+//@ func (cs *ConsensusState) enterNewRound(height uint64, round uint32)
+//@   for C12 C03
+//@   requires cs != nil
+//@   modifies *
+//@   opt noinline
+//@   opt assumecallreqs
+//@   atcall ValidatorSet.IncrementProposerPriority requires [rotationAdvancesByRoundsSkipped] times == round - cs.Round && cs.Round < round && cs.Height == height && vs == result(Copy)
+//@   atcall ValidatorSet.Copy requires [copiesTheSetOfTheCurrentRound] vs == cs.Validators
+//@   atcall ConsensusState.updateRoundStep requires [entersTheRequestedRound] round == outer(round) && step == cstypes.RoundStepNewRound
+
 // Precommit: a block is precommitted (and locked) only on a +2/3 prevote majority for exactly that
 // block id in this round, with the block in hand; one precommit per round; the lock is released here
 // only on a prevote majority of this round.
